@@ -300,6 +300,10 @@ pub fn diff_state<P: Prims>(snap: &Snapshot, ids: Ids, hs: &Hs) -> u32 {
             if k[i] != hs.sym.k[i] {
                 d |= 32;
             }
+            // the key a failed call would re-install must be the key that is installed (C07)
+            if snap.checkpoint_key[i] != hs.sym.k[i] {
+                d |= 1 << 16;
+            }
             i += 1;
         }
     }
